@@ -271,7 +271,72 @@ def run(chk, repo, tier):
     p4(chk, repo, tier)
     p3(chk, repo, tier)
     p6(chk, repo, tier)
+    p6b(chk, repo, tier)
     p7(chk, repo, tier)
+
+
+# --------------------------------------------------------------------------- P6b
+import re as _re
+
+
+def p6b(chk, repo, tier):
+    """Numbered sibling index arrays (quadrant_1_indices ... quadrant_4_indices) are
+    turned into Jacobian rows by the same expression."""
+    chk.rule("P6b", "sibling agreement of the row construction: inside one setup(), the statements that append the rows of numbered sibling index arrays (<stem>_<k>_indices) to the sparsity pattern have the same form for every sibling once the sibling number, the loop variable and the base case are abstracted (rows of the k-th block are laid out like those of the other blocks, so that they pair with the column blocks in the same order)", min_decided=1)
+    pat = _re.compile(r"\b([A-Za-z]+)_(\d+)_indices\b")
+    for c in repo.components():
+        if c.name in POSTPROCESSING or c.name in NEVER_INSTANTIATED:
+            continue
+        f = c.methods.get("setup")
+        if f is None:
+            continue
+        forms = {}  # (target, normalised text of the sibling-dependent sub-expression) -> {k: [stmt]}
+        sibs = set()
+        for n in _ast.walk(f.node):
+            if not isinstance(n, _ast.Assign) or len(n.targets) != 1 or not isinstance(n.targets[0], _ast.Name):
+                continue
+            txt = _ast.unparse(n.value)
+            ms = pat.findall(txt)
+            if not ms or len({k for _, k in ms}) != 1:
+                continue
+            stem, k = ms[0]
+            sibs.add(k)
+            # innermost call / subscript chain that contains the sibling name
+            sub = None
+            for x in _ast.walk(n.value):
+                if isinstance(x, (_ast.Call, _ast.Subscript)) and pat.search(_ast.unparse(x)):
+                    tx = _ast.unparse(x)
+                    if sub is None or len(tx) > len(sub):
+                        # prefer the largest expression that does not mention the target itself
+                        if not _re.search(r"\b%s\b" % n.targets[0].id, tx):
+                            sub = tx
+            if sub is None:
+                continue
+            norm = pat.sub(r"\1_K_indices", sub)
+            # abstract the component index expression (last subscript element) and spaces
+            norm = _re.sub(r"\[(-?1|:-1), :, [A-Za-z_0-9:]+\]", r"[\1, :, D]", norm)
+            forms.setdefault((n.targets[0].id, stem), {}).setdefault(norm, {}).setdefault(k, []).append(n)
+        for (tgt, stem), byform in forms.items():
+            allk = sorted({k for d in byform.values() for k in d})
+            if len(allk) < 3:
+                continue
+            # forms shared by at least two siblings are the reference forms
+            shared = {fm for fm, d in byform.items() if len(d) >= 2}
+            for fm, d in byform.items():
+                for k, stmts in d.items():
+                    key = "%s.setup: %s from %s_%s_indices (line text: %s)" % (c.name, tgt, stem, k, " ".join(fm.split())[:70])
+                    if fm in shared:
+                        chk.ok("P6b", key, where(c, stmts[0].lineno), "same form as siblings %s" % sorted(set(d) - {k}))
+                    else:
+                        # a form used by one sibling only: deviant if that sibling has no shared form of the same head function
+                        head = fm.split("(")[0]
+                        alts = [g for g in shared if g.split("(")[0] != head and any(_re.sub(r"np\.\w+", "F", g) == _re.sub(r"np\.\w+", "F", fm) for _ in [0])]
+                        same_head_shared = [g for g in shared if g.split("(")[0] == head]
+                        ref = [g for g in shared if _re.sub(r"^np\.\w+", "", g)[:1] == _re.sub(r"^np\.\w+", "", fm)[:1]]
+                        if shared and not same_head_shared and fm.startswith("np.") and any(g.startswith("np.") for g in shared):
+                            chk.violation("P6b", key, where(c, stmts[0].lineno), "the rows of block %s are built with '%s' while its sibling blocks use '%s': the entries are laid out in a different order than the column blocks they pair with (misplaced non-zeros)" % (k, " ".join(fm.split())[:90], " ".join(sorted(shared)[0].split())[:90]))
+                        else:
+                            chk.info("P6b", key, where(c, stmts[0].lineno), "form used by one sibling only (base case)")
 
 
 # --------------------------------------------------------------------------- P6
